@@ -58,7 +58,7 @@ cfg("C16x", "Classes4", "OutsC16", "{0}", "RetsOne", "AdvsExact", "DecsAll", "Ra
 
 # ---- thorough tier: larger constants -----------------------------------------------------------
 cfg("C01_thorough", "ClassesCaps", "OutsCaps", "{0}", "RetsOne", "AdvsExact", "DecsSleep", "RasNone", BOTH, 2, "ConfigsC01T", False)
-cfg("C01x_thorough", "ClassesCaps", "OutsCaps", "{0}", "RetsOne", "AdvsExact", "DecsSleep", "RasNone", EXEC, 2, "ConfigsC01Small", True)
+cfg("C01x_thorough", "ClassesCaps", "OutsCaps", "{0}", "RetsOne", "AdvsExact", "DecsSleep", "RasNone", BOTH, 1, "ConfigsC01", True)
 cfg("C02_thorough", "Classes4", "OutsC02", "{0, 1, 2, 3, 5}", "RetsC02", "AdvsAll", "DecsSleep", "RasNone", BOTH, 1, "ConfigsC02T", False)
 cfg("C02x_thorough", "Classes4", "OutsC02", "{0, 1, 2, 5}", "RetsC02", "AdvsAll", "DecsSleep", "RasNone", EXEC, 1, "ConfigsC02x", True)
 cfg("C03_thorough", "Classes4", "OutsC03", "{0, 1}", "RetsTwo", "AdvsExact", "DecsAll", "RasNone", BOTH, 1, "ConfigsC03T", False)
@@ -66,9 +66,9 @@ cfg("C03x_thorough", "Classes4", "OutsC03", "{1}", "RetsOne", "AdvsExact", "Decs
 cfg("C04_thorough", "Classes4", "OutsC04", "{0, 2}", "RetsOne", "AdvsExact", "DecsAll", "RasNone", CALL, 2, "ConfigsC04T", False)
 cfg("C04x_thorough", "Classes4", "OutsC04", "{0, 2}", "RetsOne", "AdvsExact", "DecsAll", "RasNone", CALL, 1, "ConfigsC04T", True)
 cfg("C05_thorough", "Classes4", "OutsC05", "{0}", "RetsAll", "AdvsExact", "DecsAll", "RasSome", BOTH, 1, "ConfigsC05T", False)
-cfg("C05x_thorough", "Classes4", "OutsC05", "{0}", "RetsAll", "AdvsExact", "DecsSleep", "RasSome", EXEC, 1, "ConfigsC05x", True)
+cfg("C05x_thorough", "Classes4", "OutsC05x", "{0}", "RetsAll", "AdvsExact", "DecsAll", "RasSome", BOTH, 1, "ConfigsC05x", True)
 cfg("C10_thorough", "Classes4", "OutsC10", "{1}", "RetsTwoSmall", "AdvsExact", "DecsSleep", "RasNone", EXEC, 3, "ConfigsC10T", False, gaps="GapsC10")
-cfg("C10x_thorough", "Classes4", "OutsC10", "{1}", "RetsTwoSmall", "AdvsExact", "DecsSleep", "RasNone", EXEC, 3, "ConfigsC10", True, gaps="GapsC10")
+cfg("C10x_thorough", "Classes4", "OutsC10", "{1}", "RetsOne", "AdvsExact", "DecsSleep", "RasNone", EXEC, 3, "ConfigsC10", True, gaps="GapsC10")
 cfg("C11_thorough", "Classes4", "OutsC04", "{0, 2}", "RetsOne", "AdvsExact", "DecsAll", "RasNone", EXEC, 2, "ConfigsC11T", False)
 cfg("C11x_thorough", "Classes4", "OutsC04", "{0, 2}", "RetsOne", "AdvsExact", "DecsAll", "RasNone", EXEC, 1, "ConfigsC11", True)
 cfg("C12x_thorough", "Classes4", "OutsC12", "{2}", "RetsOne", "AdvsExact", "DecsAll", "RasSome", EXEC, 1, "ConfigsC12", True)
